@@ -318,7 +318,7 @@ func Verif_C16_escalation() {
 	deaths := 0
 	events := 4
 	if vs.Thorough() {
-		events = 6
+		events = 5
 	}
 	for e := 0; e < events; e++ {
 		tag := "ev" + strconv.Itoa(e)
